@@ -10,6 +10,7 @@ from ..rules import guards
 from ..rules import dykstra
 from ..rules import numeric_opts
 from ..rules import affine_rules
+from ..rules import influence
 
 TECHNIQUE = ('forwarding lint, must-order on the CFG of _finalize_constraints, '
              'sign<->op pairing tables evaluated per configuration, coherent '
@@ -56,6 +57,14 @@ def run(prog, res):
     roles.check_function_roles(prog, res, f)
     roles.check_clip_polarity(prog, res, f)
   numeric_opts.check(prog, res, fns)
+  nb = prog.function('pwl_calibration_layer.NaiveBoundsConstraints.__call__')
+  guards.check_bound_guards(prog, res, nb, [('self.lower_bound', 'min'),
+                                            ('self.upper_bound', 'max')])
+  res.floor('K3', 2)
+  _size_guards(prog, res, fn, body[0])
+  _bound_influence(prog, res)
+  res.floor('K4', 6)
+  res.floor('T2', 2)
   res.floor('W1', 16)
   res.floor('W4', 4)
   res.floor('P3', 6)
@@ -391,3 +400,86 @@ def _mirror_results(prog, res):
               'the mirrored result is negated back: return -bias, -heights',
               'the result of the mirrored projection is not negated back in '
               'the same order')
+
+
+def _size_guards(prog, res, fn, body):
+  """T2: group g of the convexity projection pairs heights[g::2] with
+  heights[g+1::2]; a pair exists as soon as there are g + 2 heights, so the
+  size guard around the call must hold for every size >= g + 2 (the start
+  offsets are read from the slices of _project_convexity)."""
+  callee = prog.function(PL + '._project_convexity')
+  res.analysed(callee)
+  offs = []
+  for s in ast.walk(callee.node):
+    if isinstance(s, ast.Subscript) and dotted(s.value) == 'heights' and \
+        isinstance(s.slice, ast.Slice) and s.slice.lower is not None and \
+        const_value(s.slice.step, None) == 2:
+      lo = s.slice.lower
+      if dotted(lo) == 'constraint_group':
+        offs.append(0)
+      elif isinstance(lo, ast.BinOp) and isinstance(lo.op, ast.Add) and \
+          dotted(lo.left) == 'constraint_group' and isinstance(
+              const_value(lo.right, None), int):
+        offs.append(const_value(lo.right))
+  if sorted(offs) != [0, 1]:
+    raise AnalysisError('_project_convexity: the two strided slices of '
+                        'heights (constraint_group, constraint_group + 1) '
+                        'were not found: %s' % offs)
+  width = max(offs) + 1
+  n = 0
+  for c in ast.walk(body):
+    if not isinstance(c, ast.Call) or prog.resolve_call(fn, c) is not callee:
+      continue
+    kw = {k.arg: k.value for k in c.keywords}
+    g = const_value(kw.get('constraint_group'), None)
+    if not isinstance(g, int):
+      raise AnalysisError('%s: constraint_group is not a literal' % fn.loc(c))
+    need = g + width
+    thr = 0
+    for t, pol in structural_guards(body, c) or []:
+      if isinstance(t, ast.Compare) and len(t.ops) == 1 and norm_text(
+          t.left).replace(' ', '') == 'heights.shape[0]':
+        k = const_value(t.comparators[0], None)
+        op = t.ops[0]
+        if not isinstance(k, int) or not pol:
+          raise AnalysisError('%s: size guard `%s` not understood' % (
+              fn.loc(t), norm_text(t)))
+        if isinstance(op, ast.GtE):
+          thr = max(thr, k)
+        elif isinstance(op, ast.Gt):
+          thr = max(thr, k + 1)
+        else:
+          raise AnalysisError('%s: size guard `%s` not understood' % (
+              fn.loc(t), norm_text(t)))
+    n += 1
+    res.check(thr <= need, 'T2', '%s|convexity-group-%d' % (fn.qualname, g),
+              fn.loc(c),
+              'group %d is projected whenever there are >= %d heights (first '
+              'pair exists from %d)' % (g, thr, need),
+              'convexity group %d is only projected for >= %d heights but '
+              'its first pair heights[%d], heights[%d] exists from %d '
+              'heights: calibrators with exactly %d keypoints keep violated '
+              'convexity' % (g, thr, g, g + 1, need, need + 1))
+  return n
+
+
+def _bound_influence(prog, res):
+  """K4 on the strict finalisation: every configured bound reaches the
+  returned kernel in every (monotonicity, convexity, min kind, max kind)."""
+  fin = prog.function(PL + '._finalize_constraints')
+  G = influence.GIVEN
+  cases = []
+  for mono in (-1, 0, 1):
+    for conv in (-1, 0, 1):
+      for cmin in ('NONE', 'BOUND', 'CLAMPED'):
+        for cmax in ('NONE', 'BOUND', 'CLAMPED'):
+          if cmin == 'NONE' and cmax == 'NONE':
+            continue
+          cases.append({'monotonicity': mono, 'convexity': conv,
+                        'output_min_constraints': cmin,
+                        'output_max_constraints': cmax,
+                        'output_min': G if cmin != 'NONE' else None,
+                        'output_max': G if cmax != 'NONE' else None})
+  influence.check_bound_influence(
+      prog, res, fin, cases, ('output_min', 'output_max'),
+      group_by=('monotonicity',))
